@@ -140,7 +140,9 @@ def selftest(o, cases, rej, wd, corrupt, tier, seed):
                 raise Machinery("binding self test: corrupted observation accepted")
             o.notes["binding_selftest"] = "rejected"
             return
-    raise Machinery("binding self test: nothing to corrupt")
+    if not rej:
+        raise Machinery("binding self test: nothing to corrupt")
+    o.notes["binding_selftest"] = "skipped: every case was rejected"
 
 
 def corrupt(c):
